@@ -26,6 +26,8 @@
 (*                Sync, what it has read so far, bookkeeping for the        *)
 (*                clauses: expected, written, disturbed)                    *)
 (*   st.n       : event counters that bound the exhaustive runs             *)
+(*   st.okstep  : ghost flag, the step clause of C12.atomic held on the     *)
+(*                transition into this state                                *)
 (*                                                                          *)
 (* Sync is STEPPED exactly as the code does it, one step per system / ZK    *)
 (* call:  SyncBegin (glob of non-dot names, set arithmetic)                 *)
